@@ -66,6 +66,7 @@ Definition ex_case : c08_case :=
   mkCase ex_dag (Some [(PIsLeaf, Some (Put (Some (KT 1)) None))]) true
     (Ok (ONode 0 KList [(KI 0, ONode 1 KTuple [(KI 0, OLeaf 5)]); (KI 1, ORef 1 KTuple)]))
     [([KI 0], KI 0, SLeaf 5); ([], KI 0, SCont KTuple 1); ([], KI 1, SCont KTuple 1)]
+    [None; Some 1; Some 1]
     ex_dag PIsLeaf None false
     (Ok [([KI 0; KI 0], RLeaf 5, Ok (RLeaf 5))])
     ex_dag None [([KI 1; KI 0], Ok (RLeaf 5), false)] None.
